@@ -68,7 +68,7 @@ func TestC05Enum(t *testing.T) {
 		return
 	}
 	rec := common.Get("C05")
-	maxDepth := common.Pick(4, 6)
+	maxDepth := common.Pick(4, 5)
 	if d, err := strconv.Atoi(os.Getenv("VERIF_ENUM_DEPTH")); err == nil && d > 0 {
 		maxDepth = d
 	}
@@ -77,7 +77,7 @@ func TestC05Enum(t *testing.T) {
 	for gi, g := range enumGeoms {
 		alpha := enumAlphabet(g)
 		depth := maxDepth
-		if !g.Primary && depth > 1 {
+		if !g.Primary && depth > 1 && !common.Thorough() {
 			depth--
 		}
 		k := len(alpha)
